@@ -142,7 +142,17 @@ def transpile_token(
         elif "+" in parts:
             parts = parts + "* I"
 
-        return indent_str(f'stack.append(sympy.nsimplify("{parts}"))', indent)
+        if parts.isdecimal():
+            # a plain integer literal is already exact
+            return indent_str(
+                f'stack.append(sympy.nsimplify("{parts}"))', indent
+            )
+        # sympify(..., rational=True) reads decimals as exact fractions
+        # (digits / 10**k); nsimplify would go through a float and guess a
+        # closed form (0.333333333333333 -> 1/3, 1.41421356237 -> sqrt(2))
+        return indent_str(
+            f'stack.append(sympy.sympify("{parts}", rational=True))', indent
+        )
     elif token.name == TokenType.GENERAL:
         return indent_str(elements.get(token.value, ("pass\n", -1))[0], indent)
     elif token.name == TokenType.COMPRESSED_NUMBER:
